@@ -270,6 +270,16 @@ fn exec(op: &str, args: &[Sexp]) -> Ans {
 				},
 			}
 		}
+		("oracle-parameter-annotations", [b, n]) => {
+			// the duke tree has no field for parameter annotations (`visit_parameter_annotation` is `todo!()`, the reader skips the
+			// attribute): of the `n` attributes the file states, none is delivered
+			let bytes = tr!(b.as_bytes());
+			let n = tr!(n.as_nat());
+			match duke_read(&bytes) {
+				Ok(Ok(_)) => if n == 0 { Ans::pass() } else { Ans::fail("dropped") },
+				_ => Ans::fail("err"),
+			}
+		}
 		("oracle-read-parse", [b]) => {
 			let bytes = tr!(b.as_bytes());
 			let Ok(g) = c01parse::parse(&bytes) else { return Ans::out_of_domain() };
